@@ -11,7 +11,7 @@ from vlib.treegen import E, content_pattern
 B = 4096
 BLK = {"r1": content_pattern("r1", B), "r2": content_pattern("r2", B), "r3": content_pattern("r3", B), "A": b"A" * B, "Bb": b"B" * B}
 TAIL = {"t1": content_pattern("t1", 1500), "t2": content_pattern("t2", 1500), "t3": content_pattern("t3", 1500), "t4": content_pattern("t4", 1500),
-        "tp": content_pattern("t1", 700)}
+        "tp": content_pattern("t1", 700), "t5": content_pattern("t5", 1500), "t6": content_pattern("t6", 1500), "t7": content_pattern("t7", 1500)}
 VARIANTS = {}
 SCR = None
 
@@ -118,6 +118,11 @@ def main():
         tl = [("t1",), ("t2",), ("t3",), ("t4",)]
         fams.append(("tail-sequences", [seq for n in (4, 5) for seq in itertools.product(tl, repeat=n)] if not cr.quick
                      else [seq for seq in itertools.product(tl[:3], repeat=4)] + [seq for seq in itertools.product(tl[:2], repeat=5)]))
+        # several fragment blocks already on disk (two tails per block, stored uncompressed), then every sequence of <= 2 (thorough 3) look-ups of
+        # tails that live in different on-disk blocks: the one-entry read-back cache is loaded, hit and evicted in every order
+        base7 = [("t1",), ("t2",), ("t3",), ("t4",), ("t5",), ("t6",), ("t7",)]
+        look = [("t1",), ("t2",), ("t3",), ("t4",), ("t5",), ("t6",)]
+        fams.append(("ondisk-lookups", [tuple(base7) + seq for n in ((1, 2) if cr.quick else (1, 2, 3)) for seq in itertools.product(look, repeat=n)]))
         if not cr.quick:
             S0 = shapes(["r1", "A"], ["t1", "t2"], 1)   # 8 shapes
             fams.append(("quads", list(itertools.product(S0, repeat=4))))
@@ -125,6 +130,8 @@ def main():
             for files in fl:
                 for k in bits:
                     for ci, cfg in enumerate(cfgs):
+                        if fname == "ondisk-lookups" and (k not in (0, 32) or cfg.get("sort")):
+                            continue
                         if fname in ("triples", "quads") and ci > 1 and (k != 0 or cfg.get("sort")):
                             continue
                         if cfg.get("sort") and k != 0:
